@@ -121,6 +121,11 @@ def s_boundaries(pp):
     return dict(par.pmap(_boundary_one, list(range(len(cases)))))
 
 
+def _prec(pp, unit):
+    p = pp.config.precisions
+    return p[unit] if unit in p else p['default']
+
+
 def _prog(prog_idx):
     pp, voc = _G['pp'], _G['voc']
     program = [voc[i] for i in prog_idx]
@@ -138,8 +143,9 @@ def _prog(prog_idx):
         for tf in ['all'] + [f's{i}' for i in range(n)]:
             for dest in ["plates"] + [[res[x]] for x in sorted(res)]:
                 for unit in (('U',) if s.is_enzyme() else ('umol', 'mL', 'mg')):
+                    sc = 10.0 ** _prec(pp, unit)          # stored in units of the last displayed digit
                     try:
-                        nums.append(r.get_substance_used(s, tf, unit, dest))
+                        nums.append(r.get_substance_used(s, tf, unit, dest) * sc)
                     except ValueError:
                         nums.append('ValueError')
                     except Exception as e:  # noqa
@@ -147,9 +153,10 @@ def _prog(prog_idx):
     for name in sorted(res):
         for tf in ['all'] + [f's{i}' for i in range(n)]:
             for unit in ('uL', 'mg', 'umol'):
+                sc = 10.0 ** _prec(pp, unit)
                 try:
                     f = r.get_container_flows(res[name], tf, unit)
-                    nums += numpy.asarray(f['in'], dtype=float).flatten().tolist() + numpy.asarray(f['out'], dtype=float).flatten().tolist()
+                    nums += (numpy.asarray(f['in'], dtype=float).flatten() * sc).tolist() + (numpy.asarray(f['out'], dtype=float).flatten() * sc).tolist()
                     for mode in ('before', 'after'):
                         v = r.get_amount_remaining(res[name], tf, unit, mode)
                         nums += numpy.asarray(v if v is not None else -1.0, dtype=float).flatten().tolist()
@@ -159,7 +166,10 @@ def _prog(prog_idx):
 
 
 def s_programs(pp, depth):
-    voc = e2.vocabulary()
+    voc = e2.vocabulary() + [
+        # sub-micromole amounts (legitimate data under every storage unit: thousands of resolutions even for 'mol')
+        alphabets.T('A', ['P', "(2, 1)"], '2 uL'), {'op': 'remove', 'obj': ['P', "(2, 1)"], 'what': 'nacl'},
+        {'op': 'remove', 'obj': 'P', 'what': 'SOLID'}, alphabets.T('A', 'B', '3 uL'), {'op': 'remove', 'obj': 'B', 'what': 'nacl'}]
     _G.update(pp=pp, voc=voc)
     # all programs incl. failing ones: the enumeration itself must not depend on the configuration, so it is the plain
     # product of the vocabulary restricted by enabledness
@@ -217,7 +227,7 @@ def s_specs(pp, stride):
     items = [('C05', i, sp) for i, sp in enumerate(C05.specs(0)) if i % stride == 0 and not C05.holds_solute(sp)
              and sp['level'] != 'just-feasible']
     items += [('C11', i, sp) for i, sp in enumerate(list(C11.dilute_specs()) + list(C11.fill_specs()))
-              if i % stride == 0 and not sp['mix'].startswith('tiny') and sp['cap'] in ('inf', 'ample')]
+              if i % stride == 0 and not sp['mix'].startswith(('tiny', 'trace')) and sp['cap'] in ('inf', 'ample')]
     items += [('C12', i, sp) for i, sp in enumerate(C12.specs()) if i % stride == 0 and sp['size'] == 'small']
     return dict(r for r in par.pmap(_spec_one, items) if r)
 
